@@ -122,6 +122,36 @@ void operator delete[](void *p, size_t) noexcept { operator delete(p); }
 /* ------------------------------------------------------------------ helpers */
 
 static Config *cfg = NULL;
+
+/* A user's subclass that overrides the virtual include hook (Config::evaluateIncludePath) with the harness's multi-path
+ * function - the same function drv_api.c installs through config_set_include_func (id 1; includeFnEval in the model):
+ * the path is split at '|', a leading '!' reports an error, a leading '?' returns NULL without error, "" gives no file. */
+class MultiConfig : public Config
+{
+ protected:
+  virtual const char **evaluateIncludePath(const char *path, const char **error)
+  {
+    const char *dir = getIncludeDir(); const char **files; int n = 0, cap = 4;
+    *error = NULL;
+    if (path[0] == '!') { *error = "custom include error"; return NULL; }
+    if (path[0] == '?') return NULL;
+    files = (const char **)malloc(sizeof(char *) * cap);
+    if (path[0]) {
+      const char *p = path;
+      for (;;) {
+        const char *q = strchr(p, '|'); size_t len = q ? (size_t)(q - p) : strlen(p); char *f;
+        if (dir && !(len > 0 && p[0] == '/')) { f = (char *)malloc(strlen(dir) + len + 2); sprintf(f, "%s/%.*s", dir, (int)len, p); }
+        else { f = (char *)malloc(len + 1); memcpy(f, p, len); f[len] = 0; }
+        if (n + 2 > cap) { cap *= 2; files = (const char **)realloc(files, sizeof(char *) * cap); }
+        files[n++] = f;
+        if (!q) break;
+        p = q + 1;
+      }
+    }
+    files[n] = NULL;
+    return files;
+  }
+};
 static int use_str = 0;      /* call the std::string overloads where they exist */
 
 static char *unhex(const char *s, size_t *lenp)
@@ -466,6 +496,7 @@ int main(int argc, char **argv)
       try {
         config_t *c = cfg->_config;
         if (COP("init", 1)) { show_freed = 1; delete cfg; cfg = NULL; cfg = new Config(); printf("ok"); }
+        else if (COP("init_multi", 1)) { show_freed = 1; delete cfg; cfg = NULL; cfg = new MultiConfig(); printf("ok"); }
         else if (COP("overloads", 2)) { use_str = atoi(w[2]); printf("ok"); }
         else if (COP("clear", 1)) { show_freed = 1; cfg->clear(); printf("ok"); }
         else if (COP("read_string", 2)) {
